@@ -138,6 +138,9 @@ def templates(tier, seed):
                 for si in range(n):
                     for delta in (None, "dxdy", "dxy"):
                         tds.append(dict(fam="pairs", shape=shape, xp=list(xp), yp=list(yp), sp=si, delta=delta))
+                    if si == 0:
+                        # the element has to wait for a later one (it is solved on a retry): same result, offsets applied once
+                        tds.append(dict(fam="pairs", shape=shape, xp=list(xp), yp=list(yp), sp=si, delta="dxdy", held=True))
     # circles: one full axis plus a single value on the other axis
     for full_axis in ("x", "y"):
         for p in PAIRS:
@@ -237,8 +240,10 @@ def build(td, wrong=False):
                 attrs += f' dxy="[[{kx}]] [[{ky}]]"'
             bx = bx.translate(f"v{kx}", f"v{ky}")
         doc = f"<svg><{shape} {attrs}/></svg>"
+        if td.get("held"):
+            doc = f'<svg><{shape} {attrs} data-w="{{{{#zz~w}}}}"/><rect id="zz" x="900" y="900" width="2" height="2"/></svg>'
         assume = [a for a in assume if a != "true"]
-        return Template(f"pairs/{shape}/{''.join(xp)}-{''.join(yp)}/{name}/{td['delta']}", doc, vars_, mk_check(shape, bx, wrong),
+        return Template(f"pairs/{shape}/{''.join(xp)}-{''.join(yp)}/{name}/{td['delta']}" + ("/held" if td.get("held") else ""), doc, vars_, mk_check(shape, bx, wrong, nelem=2 if (td.get("held") and shape == "rect") else 1),
                         family=f"pairs-{shape}", role=f"C11/pairs/{shape}", assume=and_(*assume) if assume else None, cap=8)
     if fam == "circle3":
         pair = tuple(td["pair"])
